@@ -774,7 +774,8 @@ META = {
         'ConnectToPeer request from the server: user name (2 bytes), type (1 byte), ip, port, ticket, privileged, obfuscated port amount / port',
         'select_port: both ports (32 bit)'],
     'discriminants': [
-        'connect mode (fallback / race)', 'direct attempt: connected fast / slowly / in the instant of the indirect event / refused fast / slowly / '
+        'connect mode (fallback / race)', 'direct attempt: connected fast / slowly / connected or refused in the instant of the indirect event, '
+        '0..11 loop iterations into that instant (tie_alignment: direct first, indirect first, both finished in one wake-up of the race) / refused fast / slowly / '
         'no answer until the time-out / PeerInit write error / PeerInit write hangs', 'indirect attempt: pierce fast / slowly, CannotConnect '
         'fast (then pierce) / slowly, silence, ConnectToPeer write error / hangs, stranger then pierce, pierce then CannotConnect, pierce in '
         'the instant of the time-out (before / after its handling)', 'listening port (clear / obfuscated) of every incoming connection',
@@ -783,11 +784,11 @@ META = {
         'cancellation: none / at each idle instant / before each loop step (one fork per step)',
         'connect-back: TCP ok fast / slowly / refused / hangs / pierce write error / hangs'],
     'bounds': {
-        'quick': {'direct outcomes': 5, 'indirect outcomes': 6, 'both modes': True, 'caller-given address grid': 'all 60 pairs, type rotating',
+        'quick': {'direct outcomes': '5 (+ 3 race jobs with the tie outcomes, all 12 alignments)', 'indirect outcomes': 6, 'both modes': True, 'caller-given address grid': 'all 60 pairs, type rotating',
                   'server-address grid': '3 x 4 pairs x 2 modes, foreign answer alternating', 'cancellation': 'every idle instant on all 60 pairs; '
                   'every loop step on 3 x 2 pairs x 2 modes (<= 48 steps; the longest scenario has 26)',
                   'text leaves': 'user names 2 bytes, type 1 byte', 'virtual horizon': '180 s'},
-        'thorough': {'direct outcomes': 8, 'indirect outcomes': 11, 'both modes': True, 'caller-given address grid': 'all pairs x 3 types',
+        'thorough': {'direct outcomes': '9 (tie alignments: 12 on the caller-given grid, 4 on the server grid, 2 on the cancellation grids)', 'indirect outcomes': 11, 'both modes': True, 'caller-given address grid': 'all pairs x 3 types',
                      'server-address grid': 'all pairs x {with, without foreign answer}', 'cancellation': 'every idle instant on all pairs; every '
                      'loop step on all pairs x {given, server address}', 'text leaves': 'user names 2 bytes, type 1 byte', 'virtual horizon': '180 s'}},
     'outside': [
